@@ -125,12 +125,32 @@ func (x *rtRun) value(name string) (rt.Value, bool) {
 	return v, ok
 }
 
-// parseDef: cc.<lims>.<pol> / pu.<lims>.<pol>, lims ⊆ "cmt", pol ∈ d|s|i
+// parseDef: cc.<lims>.<pol>[.<flags>] / pu.<lims>.<pol>[.<flags>], lims ⊆ "cmt", pol ∈ d|s|i,
+// flags ⊆ "cimt" (required compliance flags: cpusafe, iosafe, memsafe, timesafe)
 func parseDef(op string) (rt.RuntimeContextDef, bool) {
 	parts := strings.Split(op, ".")
 	def := rt.RuntimeContextDef{}
-	if len(parts) != 3 || len(parts[2]) != 1 {
+	if (len(parts) != 3 && len(parts) != 4) || len(parts[2]) != 1 {
 		return def, false
+	}
+	if len(parts) == 4 {
+		if parts[3] == "" {
+			return def, false
+		}
+		for _, c := range parts[3] {
+			switch c {
+			case 'c':
+				def.RequiredFlags |= rt.ComplyCpuSafe
+			case 'i':
+				def.RequiredFlags |= rt.ComplyIoSafe
+			case 'm':
+				def.RequiredFlags |= rt.ComplyMemSafe
+			case 't':
+				def.RequiredFlags |= rt.ComplyTimeSafe
+			default:
+				return def, false
+			}
+		}
 	}
 	for _, c := range parts[1] {
 		switch c {
@@ -364,11 +384,19 @@ func runRtHistory(ops []string) string {
 	return "rt " + strings.Join(ops, " ") + " = " + res
 }
 
+// every combination of hard limits × GC policy, without required flags and with each of a few flag sets
 var allDefs = func() []string {
 	var out []string
 	for _, lims := range []string{"", "c", "m", "t", "cm", "ct", "mt", "cmt"} {
 		for _, pol := range []string{"d", "s", "i"} {
 			out = append(out, lims+"."+pol)
+		}
+	}
+	for _, flags := range []string{"c", "i", "m", "t", "ci", "mt", "cimt"} {
+		for _, lims := range []string{"", "", "c", "m", "ct"} {
+			for _, pol := range []string{"d", "s", "i"} {
+				out = append(out, lims+"."+pol+"."+flags)
+			}
 		}
 	}
 	return out
@@ -481,6 +509,12 @@ func rtLeg(thorough bool) {
 		{"cc..d", "mkT2:1", "mkU12:2", "ed", "st", "cl"},
 		{"cc..s", "mkT2:1", "mkU12:2", "ek", "cl"},
 		{"cc.c.d", "cc.m.d", "mkT2:1", "ed", "mkT2:2", "ed", "cl"},
+		// contexts that only REQUIRE FLAGS own a pool too: finalised and released inside them, by their end
+		{"cc..d.i", "mkT2:1", "mkU12:2", "ed", "st", "cl"},
+		{"cc..s.c", "mkT2:1", "mkU10:2", "ee", "cl"},
+		{"cc..d.cimt", "mkT3:1", "cc..d.m", "mkT2:2", "ed", "mkU12:3", "ek", "cl"},
+		{"pu..d.i", "mkT2:1", "cc..d", "mkU12:2", "ed", "cl"},
+		{"mkT2:1", "cc..d.i", "rm2:1o", "mkT2:2", "ed", "cl"}, // a root-owned value re-marked inside a flags context stays with the root
 		// releasable userdata whatever its metatable; non-releasable userdata; tables without __gc
 		{"mkU10:1", "mkU11:2", "mkU12:3", "mkU00:4", "mkU02:5", "mkT1:6", "cl"},
 		{"cc.c.d", "mkU10:1", "ed", "cc.m.d", "mkU10:2", "ee", "cc.t.d", "mkU10:3", "ek", "cl"},
